@@ -1306,17 +1306,15 @@ macro_rules! iter_sub_expr {
                             ObjectFieldKind::Spread { value, .. } => value,
                         }
                     }
-                    Expression::LitArr { fields, .. } => {
+                    Expression::LitArr { fields, .. } => loop {
                         let x = fields.$get(self.index)?;
                         self.index += 1;
                         match x {
-                            ArrayFieldKind::Normal { value, .. } => value,
-                            ArrayFieldKind::Spread { value, .. } => value,
-                            ArrayFieldKind::EmptySlot => {
-                                return None;
-                            }
+                            ArrayFieldKind::Normal { value, .. } => break value,
+                            ArrayFieldKind::Spread { value, .. } => break value,
+                            ArrayFieldKind::EmptySlot => continue,
                         }
-                    }
+                    },
                     Expression::StaticMember { obj, .. } => {
                         if self.index == 0 {
                             self.index = 1;
